@@ -53,7 +53,7 @@ def nontrivial(scn):
 
 
 def canonical_text(scn):
-    return json.dumps({k: scn.get(k) for k in ("names", "entries", "rounds", "force_async", "via_any", "same_free_names", "falsy_callables", "event_deco")}, sort_keys=True)
+    return json.dumps({k: scn.get(k) for k in ("names", "entries", "rounds", "force_async", "via_any", "same_free_names", "falsy_callables", "event_deco", "late")}, sort_keys=True)
 
 
 # ----------------------------------------------------------------------------- one batch
